@@ -704,7 +704,7 @@ def sec_glob(ctx) -> None:
     alphabet = ['a', 'b', '/', '*', '%', '\n', '.', '\\', '[', ']', '^', '$', '(', '|', '?', '+',
                 'é', 'ı', 'I', 'i', 'N', 'n', 'B', 'O', 'X', 'x', ' ', '\r', '\x00', '-',
                 '\U0001f600', '{', 'K', 'K']
-    n = ctx.scale(1500, 8000)
+    n = ctx.scale(1200, 8000)
     cases, keep = [], []
     ci_cases, ci_keep = [], []
     for _ in range(n):
@@ -769,7 +769,7 @@ def sec_tree(ctx) -> None:
     """ListTree.update/list/get/get_renames against the path-list model"""
     from pymap.listtree import ListTree
     rng = ctx.rng
-    n = ctx.scale(500, 3000)
+    n = ctx.scale(400, 3000)
     lc, gc, rc, keep = [], [], [], []
     small = ['', '/', '//', 'a', 'a/', '/a', 'a/b', 'a//b', 'a/b/c', 'b', 'INBOX', 'INBOX/a', 'b/a']
     for _ in range(n):
@@ -896,9 +896,9 @@ def run(ctx) -> None:
     sec_tables(ctx)
     sec_glob(ctx)
     sec_tree(ctx)
-    sec_programs(ctx, 'dict', ctx.scale(210, 1500))
-    sec_programs(ctx, 'md++', ctx.scale(140, 900))
-    sec_programs(ctx, 'mdfs', ctx.scale(140, 900))
+    sec_programs(ctx, 'dict', ctx.scale(180, 1500))
+    sec_programs(ctx, 'md++', ctx.scale(120, 900))
+    sec_programs(ctx, 'mdfs', ctx.scale(120, 900))
     JOBS.run(ctx)
 
 
